@@ -215,6 +215,7 @@ def search(ctx, deep=False):
         d = int(rng.choice([2, 2, 3]))
         bs = [('ggm',), ('custom', gens.rotated_basis(rng, d, True), True, 'Custom'),
               ('custom', gens.rotated_basis(rng, d, False), False, 'Custom')]
+        bs.append(('custom', gens.signed_shuffled_basis(rng, d, True), True, 'Custom'))
         if d == 2:
             bs.append(('pauli',))
         desc = gens.rand_desc(rng, d=d, n_dt=int(rng.integers(1, 4)), n_n=int(rng.integers(1, 4)),
